@@ -2,6 +2,7 @@ import Dreye.Driver.Parse
 import Dreye.Driver.Ops01
 import Dreye.Driver.Ops02
 import Dreye.Driver.Ops20
+import Dreye.Driver.Ops19
 namespace Dreye.Driver
-def allOps : List (String × Handler) := ops01 ++ ops02 ++ ops20
+def allOps : List (String × Handler) := ops01 ++ ops02 ++ ops20 ++ ops19
 end Dreye.Driver
